@@ -1,0 +1,95 @@
+//go:build verif
+
+// Contracts for contract-based verification (/verif). Comment-only: with or without the
+// build tag "verif" this file adds nothing to the compiled package.
+
+package rapidcore
+
+// ---------------------------------------------------------------------------------------------
+// The interop server is a monitor: one mutex protects the reservation and the phase/state fields.
+// The InvokeContext object reachable through invokeCtx belongs to the monitor as well.
+// ---------------------------------------------------------------------------------------------
+
+//@ monitor Server s
+//@   lock s.mutex
+//@   protects invokeCtx, invokeTimeout, rapidPhase, runtimeState, cachedInitErrorResponse, initFailures, reservationCancel
+//@   owns invokeCtx: Token, ReplySent, ReplyStream, Direct
+//@   guarantee [reply-once] old(s.invokeCtx) != nil && s.invokeCtx == old(s.invokeCtx) && old(s.invokeCtx.ReplySent) ==> s.invokeCtx.ReplySent
+//@   guarantee [id-fixed] old(s.invokeCtx) != nil && s.invokeCtx == old(s.invokeCtx) ==> s.invokeCtx.Token.InvokeID == old(s.invokeCtx.Token.InvokeID)
+
+// C10: at most one reservation; a second one is refused without any effect.
+
+//@ func (*Server).setNewInvokeContext
+//@   modifies s.invokeCtx, s.reservationContext, s.reservationCancel
+//@   ensures [refuse] old(s.invokeCtx) != nil ==> r0 == nil && r1 == ErrAlreadyReserved && unchanged(s.invokeCtx, s.reservationContext, s.reservationCancel, s.invokeCtx.ReplySent, s.invokeCtx.ReplyStream, s.invokeCtx.Token.InvokeID)
+//@   ensures [reserve] old(s.invokeCtx) == nil ==> r1 == nil && r0 != nil && fresh(r0) && s.invokeCtx != nil && fresh(s.invokeCtx)
+//@   ensures [fresh-ctx] old(s.invokeCtx) == nil ==> s.invokeCtx.Token.InvokeID == invokeID && !s.invokeCtx.ReplySent && s.invokeCtx.ReplyStream == nil && !s.invokeCtx.Direct && s.invokeCtx.Token.FunctionTimeout == old(s.invokeTimeout) && s.invokeCtx.Token.TraceID == traceID
+//@   ensures [token-copy] old(s.invokeCtx) == nil ==> r0.Token.InvokeID == invokeID && r0.Token.FunctionTimeout == old(s.invokeTimeout) && r0.Token.ReservationToken == s.invokeCtx.Token.ReservationToken
+
+//@ func (*Server).Reserve
+//@   ensures [refuse] old(s.invokeCtx) != nil ==> r0 == nil && r1 == ErrAlreadyReserved && unchanged(s.invokeCtx, s.invoker, s.invokeCtx.ReplySent, s.invokeCtx.ReplyStream, s.invokeCtx.Token.InvokeID)
+//@   ensures [reserve] old(s.invokeCtx) == nil ==> r0 != nil && s.invokeCtx != nil && !s.invokeCtx.ReplySent && s.invokeCtx.ReplyStream == nil
+//@   ensures [token] old(s.invokeCtx) == nil ==> r0.Token.FunctionTimeout == old(s.invokeTimeout) && r0.Token.InvokeID == s.invokeCtx.Token.InvokeID
+//@   ensures [given-id] old(s.invokeCtx) == nil && len(id) > 0 ==> s.invokeCtx.Token.InvokeID == id
+
+//@ func (initContext).Reserve
+//@   modifies nothing
+
+//@ func (*Server).setReplyStream
+//@   modifies s.invokeCtx.ReplyStream, s.invokeCtx.Direct
+//@   ensures [not-reserved] old(s.invokeCtx) == nil ==> r1 == ErrNotReserved && r0 == ""
+//@   ensures [replied] old(s.invokeCtx) != nil && old(s.invokeCtx.ReplySent) ==> r1 == ErrAlreadyReplied && unchanged(s.invokeCtx.ReplyStream, s.invokeCtx.Direct)
+//@   ensures [invocating] old(s.invokeCtx) != nil && !old(s.invokeCtx.ReplySent) && old(s.invokeCtx.ReplyStream) != nil ==> r1 == ErrAlreadyInvocating && unchanged(s.invokeCtx.ReplyStream, s.invokeCtx.Direct)
+//@   ensures [attach] old(s.invokeCtx) != nil && !old(s.invokeCtx.ReplySent) && old(s.invokeCtx.ReplyStream) == nil ==> r1 == nil && r0 == s.invokeCtx.Token.InvokeID && s.invokeCtx.ReplyStream == w && s.invokeCtx.Direct == direct
+//@   ensures [same-reservation] unchanged(s.invokeCtx)
+
+//@ func (*Server).Release
+//@   ensures [not-reserved] old(s.invokeCtx) == nil ==> r0 == ErrNotReserved
+//@   ensures [released] old(s.invokeCtx) != nil ==> r0 == nil
+//@   ensures [idle-after] s.invokeCtx == nil
+
+//@ func (*Server).GetCurrentInvokeID
+//@   modifies nothing
+//@   ensures [none] s.invokeCtx == nil ==> r0 == ""
+//@   ensures [current] s.invokeCtx != nil ==> r0 == s.invokeCtx.Token.InvokeID
+
+//@ func (*Server).setRuntimeState
+//@   modifies s.runtimeState
+//@   ensures s.runtimeState == state
+//@ func (*Server).setRapidPhase
+//@   modifies s.rapidPhase
+//@   ensures s.rapidPhase == phase
+//@ func (*Server).getRapidPhase
+//@   modifies nothing
+//@   ensures r0 == s.rapidPhase
+//@ func (*Server).getRuntimeState
+//@   modifies nothing
+//@   ensures r0 == s.runtimeState
+//@ func (*Server).setCachedInitErrorResponse
+//@   modifies s.cachedInitErrorResponse
+//@   ensures s.cachedInitErrorResponse == errResp
+//@ func (*Server).getCachedInitErrorResponse
+//@   modifies nothing
+//@   ensures r0 == s.cachedInitErrorResponse
+
+// C02 + C14: the reply is accepted only for the reservation's id, only once, and only up to the size limit.
+
+//@ const interop.MaxPayloadSize == 6*1024*1024 + 100
+
+//@ spec srvAccepts(s *Server, id string) bool = old(s.invokeCtx) != nil && id == old(s.invokeCtx.Token.InvokeID) && !old(s.invokeCtx.ReplySent)
+//@ spec srvBuffered(s *Server, id string) bool = srvAccepts(s, id) && old(s.invokeCtx.ReplyStream) != nil && !old(s.invokeCtx.Direct)
+//@ spec noReplyWritten() bool = ghost(httpWrites) == old(ghost(httpWrites))
+
+//@ func (*Server).sendResponseUnsafe
+//@   requires held(s)
+//@   ensures [bad-id] old(s.invokeCtx) == nil || invokeID != old(s.invokeCtx.Token.InvokeID) ==> r0 == interop.ErrInvalidInvokeID && noReplyWritten()
+//@   ensures [bad-id-no-effect] old(s.invokeCtx) != nil && invokeID != old(s.invokeCtx.Token.InvokeID) ==> unchanged(s.invokeCtx, s.invokeCtx.ReplySent, s.invokeCtx.ReplyStream, s.invokeCtx.Direct, s.invokeCtx.Token.InvokeID)
+//@   ensures [second] old(s.invokeCtx) != nil && invokeID == old(s.invokeCtx.Token.InvokeID) && old(s.invokeCtx.ReplySent) ==> r0 == interop.ErrResponseSent && noReplyWritten() && unchanged(s.invokeCtx, s.invokeCtx.ReplySent, s.invokeCtx.ReplyStream, s.invokeCtx.Direct)
+//@   ensures [no-stream] srvAccepts(s, invokeID) && old(s.invokeCtx.ReplyStream) == nil ==> r0 != nil && noReplyWritten() && !s.invokeCtx.ReplySent
+//@   ensures [read-fail] srvBuffered(s, invokeID) && readFails(payload) ==> r0 != nil && noReplyWritten() && !s.invokeCtx.ReplySent
+//@   ensures [oversize] srvBuffered(s, invokeID) && !readFails(payload) && readerLen(payload) > interop.MaxPayloadSize ==> typeis(r0, *interop.ErrorResponseTooLarge) && r0.(*interop.ErrorResponseTooLarge).ResponseSize == readerLen(payload) && r0.(*interop.ErrorResponseTooLarge).MaxResponseSize == interop.MaxPayloadSize
+//@   ensures [oversize-no-effect] srvBuffered(s, invokeID) && !readFails(payload) && readerLen(payload) > interop.MaxPayloadSize ==> noReplyWritten() && !s.invokeCtx.ReplySent && unchanged(s.invokeCtx)
+//@   ensures [deliver] srvBuffered(s, invokeID) && !readFails(payload) && readerLen(payload) <= interop.MaxPayloadSize ==> ghost(httpWrites) == old(ghost(httpWrites)) + 1 && ghost(httpLastContent) == readerContent(payload) && ghost(httpLastLen) == readerLen(payload) && ghost(httpLastWriter) == ref(old(s.invokeCtx.ReplyStream))
+//@   ensures [deliver-marks-sent] srvBuffered(s, invokeID) && !readFails(payload) && readerLen(payload) <= interop.MaxPayloadSize && r0 == nil ==> s.invokeCtx.ReplySent && unchanged(s.invokeCtx)
+//@   ensures [sent-only-on-success] srvAccepts(s, invokeID) && !old(s.invokeCtx.Direct) && r0 != nil ==> !s.invokeCtx.ReplySent
+//@   ensures [keeps-reservation] old(s.invokeCtx) == nil || !old(s.invokeCtx.Direct) ==> unchanged(s.invokeCtx)
